@@ -56,7 +56,7 @@ type histCase struct {
 	Tests   []HistTest `json:"tests"`
 	Procs   []Proc     `json:"procs"`
 	Blocked bool       `json:"blocked_dir,omitempty"` // C20: one more config whose snapshot file can never be written
-	BlockKind string   `json:"block_kind,omitempty"`  // "" : the directory path is occupied by a regular file | file_is_dir : the snapshot file path is a directory
+	BlockKind string   `json:"block_kind,omitempty"`  // "" : the directory path is occupied by a regular file | file_is_dir : the snapshot file path is a directory | name_too_long : file name beyond NAME_MAX
 }
 
 // vkey: identity of the stored text of a call (equal keys <=> the code must treat the values as equal).
@@ -187,7 +187,7 @@ func genHistory(t *rapid.T, col *collector, ho histOpts) histCase {
 	}
 	if ho.blocked && rapid.IntRange(0, 2).Draw(t, "blocked") == 0 {
 		c.Blocked = true
-		c.BlockKind = rapid.SampledFrom([]string{"", "file_is_dir"}).Draw(t, "blockkind")
+		c.BlockKind = rapid.SampledFrom([]string{"", "file_is_dir", "name_too_long"}).Draw(t, "blockkind")
 	}
 	nprocs := rapid.IntRange(1, ho.maxProcs).Draw(t, "nprocs")
 	for p := 0; p < nprocs; p++ {
@@ -368,6 +368,9 @@ func runHistory(c histCase, hooks histHooks) error {
 		if c.BlockKind == "file_is_dir" {
 			blockedSpec = CfgSpec{Dir: "blockeddir", Filename: "h"}
 			os.MkdirAll(filepath.Join(root, blockedSpec.multiPath(), "inner"), 0o755)
+		} else if c.BlockKind == "name_too_long" {
+			// a file name beyond NAME_MAX: the directory can be created, the file can neither be read nor written
+			blockedSpec = CfgSpec{Dir: "longnames", Filename: strings.Repeat("n", 300)}
 		} else {
 			os.WriteFile(filepath.Join(root, "blocked"), []byte("a regular file where a directory is needed"), 0o644)
 		}
